@@ -47,7 +47,7 @@ def faults_to_driver(sched, rnd, rows):
             pending = False
         elif a == "Compact":
             if st[2] == "failBefore":
-                out.append(["Fault", rnd.choice(["write-before", "write-partial", "open", "openmid"]), 1])
+                out.append(["Fault", rnd.choice(["write-before", "write-partial", "open", "openmid", "openmid"]), rnd.choice([1, 5])])
             elif st[2] == "failAfter":
                 out.append(["Fault", "write-after", 1])
             out.append(["Compact", st[1]])
@@ -75,16 +75,51 @@ def random_repl(rnd, n, rows, faults=False, retention=True, levels=2):
             s.append(["L0Retention", rnd.randint(0, 6)])
         elif x < 0.83 and retention:
             s.append(["RetByTXID", rnd.randint(1, levels), rnd.randint(1, 8)])
+        elif x < 0.845 and retention:   # file ages placed arbitrarily around a fixed retention window
+            for _ in range(rnd.randint(1, 4)):
+                s.append(["AgeFile", rnd.choice([0, 0, 0, 9]), rnd.randint(1, 8), rnd.choice(["old", "old", "fresh"])])
+            s.append([rnd.choice(["L0RetentionAbs", "L0RetentionAbs", "SnapRetentionAbs"])])
         elif x < 0.86:
             s.append(["LsCheckpoint", rnd.choice(["PASSIVE", "TRUNCATE"])])
         elif x < 0.90:
             s.append(["AuditNow"])
         elif faults:
-            s.append(["Fault", rnd.choice(["list", "open", "openmid", "write-before", "write-partial", "write-after",
-                                           "delete-before", "delete-after"]), rnd.randint(1, 2)])
+            # single faults, and bursts that outlast the download retry budget (3 retries)
+            s.append(["Fault", rnd.choice(["list", "open", "openmid", "openmid", "write-before", "write-partial", "write-after",
+                                           "delete-before", "delete-after"]), rnd.choice([1, 1, 2, 5])])
+            if rnd.random() < 0.5:
+                s.append(["Compact", rnd.randint(1, levels)])
         else:
             s += [["AppWrite", rnd.randint(1, rows)], ["LsSyncAndWait"]]
     return s
+
+
+def directed(prop, rnd):
+    out = []
+    SY = lambda k: sum([[["AppWrite", 1 + (j % 5)], ["LsSyncAndWait"]] for j in range(k)], [])
+    if prop == "C06":   # long backlogs in front of one compaction (nothing in the property bounds the number of inputs)
+        for n in (70, 135):
+            out.append([["LsOpen", "new"]] + SY(n) + [["Compact", 1], ["Compact", 2], ["AppWrite", 2], ["LsSyncAndWait"], ["Compact", 1], ["Compact", 2], ["AuditNow"]])
+        out.append([["LsOpen", "new"]] + sum([SY(9) + [["Compact", 1]] for _ in range(8)], []) + [["Compact", 2], ["AuditNow"]])
+    if prop == "C07":   # ages out of TXID order around a fixed one-hour window, after everything was compacted into level 1
+        for n in (4, 6):
+            for fresh in range(1, n + 1):
+                d = [["LsOpen", "new"]] + SY(n) + [["Compact", 1]] + [["AgeFile", 0, k, "fresh" if k == fresh else "old"] for k in range(1, n + 1)] + \
+                    [["L0RetentionAbs"], ["AppWrite", 2], ["LsSyncAndWait"], ["Compact", 1], ["L0RetentionAbs"]]
+                out.append(d)
+        for n in (3, 5):
+            for fresh in range(1, 4):
+                d = [["LsOpen", "new"]]
+                for k in range(1, 4):
+                    d += SY(n) + [["Snapshot"]]
+                d += [["Compact", 1], ["Compact", 2]] + [["AgeFile", 9, k, "fresh" if k == fresh else "old"] for k in range(1, 4)] + [["SnapRetentionAbs"], ["L0RetentionAbs"]]
+                out.append(d)
+    if prop == "C05":   # compaction that reads its inputs from the replica (level 1 -> 2) under bursts of download faults
+        for kind in ("openmid", "open"):
+            for n in (1, 3, 4, 6):
+                out.append([["LsOpen", "new"]] + SY(3) + [["Compact", 1]] + SY(2) + [["Compact", 1], ["Fault", kind, n], ["Compact", 2],
+                           ["ClearFaults"], ["Compact", 2]] + SY(1))
+    return out
 
 
 SUFFIX = [["ClearFaults"], ["AppWrite", 1], ["LsSyncAndWait"], ["LsSyncAndWait"], ["RestoreCheck"], ["LsClose"]]
@@ -96,7 +131,7 @@ PLANS = {
         sim=("Faults", "Sim_Faults.cfg", 120, 1500, 40, "faults"),
         random=dict(n=120, n_thorough=2000, length=26, faults=True, retention=False),
         cfg=dict(faults=True, restoreEach=True),
-        invariants=["C05_Level0Gapless", "C05_AckMeansStored", "C05_AlwaysRestorable", "C05_CatchesUp"],
+        invariants=["C05_Level0Gapless", "C05_AckMeansStored", "C05_AlwaysRestorable", "C05_CatchesUp", "C06_NoCorruptFile"],
         nontrivial="distinct schedule in which at least one injected storage fault was consumed by a litestream call and a later acknowledgement was judged",
     ),
     "C06": dict(
@@ -168,6 +203,8 @@ def run(prop, argv):
             for k in range(rp["n_thorough"] if thorough else rp["n"]):
                 lv = 3 if k % 4 == 0 else 2
                 scheds.append(("random", random_repl(rnd, rp["length"], 6, faults=rp["faults"], retention=rp["retention"], levels=lv)))
+            for d in directed(prop, rnd):
+                scheds.append(("directed", d))
             seen = set()
             sizes = corelib.PAGE_SIZES_ALL if thorough else corelib.PAGE_SIZES_QUICK
             for label, d in scheds:
